@@ -5,7 +5,7 @@ from ..index import AnalysisError, dotted
 from ..astutil import text, short, endswith, calls_in, walk_no_nested
 from .. import jsonshape
 from ..dataflow import DefUse
-from ._h_F import Res, res_of, call_arg, absent
+from ._h_F import ifn, Res, res_of, call_arg, absent, alias_group
 
 EXPLANATION = (
   "Decides the chain shape of the migrations registry (versions unique, within 1..SCHEMA_VERSION, "
@@ -73,7 +73,7 @@ def r1_chain(run, w, migs):
          min(vers) >= 1 and max(vers) == sv, nontrivial=False)
   for v, fi in sorted(migs, key=lambda x: x[0] or 0):
     p = fi.params()[0]
-    fn = w.fn_of(fi)
+    fn = ifn(w, fi.qualname)
     r = res_of(w, fn)
     rets = r.returns()
     ok = bool(rets) and not r.bare_returns() and \
@@ -83,7 +83,7 @@ def r1_chain(run, w, migs):
     run.ob(R1, fi.qualname, "return %s.apply_doc_actions(...)" % p,
            "the actions a migration reports are exactly those it applied to the data set", ok,
            fi=fi)
-  tds = w.fn("table_data_set.TableDataSet.apply_doc_actions")
+  tds = ifn(w, "table_data_set.TableDataSet.apply_doc_actions")
   tr = res_of(w, tds)
   rets = tr.returns()
   ok = bool(rets) and all(text(val) == tds.fi.params()[1] for (n, val) in rets) and \
@@ -92,7 +92,7 @@ def r1_chain(run, w, migs):
   run.ob(R1, tds.qualname, "return doc_actions", "apply_doc_actions returns the list it applied",
          ok, fi=tds.fi)
   # ---- create_migrations: roles are read off the value that is returned
-  cm = w.fn("migrations.create_migrations")
+  cm = ifn(w, "migrations.create_migrations")
   r = res_of(w, cm)
   cfg = r.cfg
   rets = r.returns()
@@ -109,7 +109,9 @@ def r1_chain(run, w, migs):
     raise AnalysisError("create_migrations: the list collecting the migrations' actions was "
                         "not identified")
   L = acc.pop()
-  returned_ok = bool(rets) and all(isinstance(val, ast.Name) and val.id == L for (n, val) in rets) \
+  group = alias_group(r, L)
+  returned_ok = bool(rets) and all(isinstance(val, ast.Name) and val.id in group
+                                   for (n, val) in rets) \
       and not r.falls_off_end() and not r.bare_returns()
   els = []
   for at in ([n.id for (n, val) in rets] or [cfg.exit.id]):
@@ -184,7 +186,7 @@ def r1_chain(run, w, migs):
   if ok:
     st = stamps[0]
     n = st.node
-    growth = r.du.muts.get(L, set()) | r.defs.get(L, set())
+    growth = {x for nm in group for x in r.du.muts.get(nm, set())} | r.defs.get(L, set())
     later = cfg.reach_after({n.id})
     ok = st.how == "append" and not st.loops and cfg.dominated_by(cfg.exit.id, {n.id}) and \
         n.id not in later and not (later & growth)
@@ -199,8 +201,18 @@ def r2_shapes(run, w, migs):
   R2 = run.rule("C25-R2", "every shape-needing operation on a parsed JSON value is guarded by a "
                 "shape test or fenced by try/except Exception", floor=20)
   total = 0
+  # small same-module helpers (not the migrations themselves, not the JSON sources) are followed
+  mig_names = {f.name for (v, f) in migs}
+  helpers = {}
+  for name, hf in w.repo.module("migrations").functions.items():
+    if name in mig_names or name in SOURCES or hf.decorators() or \
+        name in ("create_migrations", "migration", "get_last_migration_version"):
+      continue
+    if sum(1 for x in ast.walk(hf.node) if isinstance(x, ast.stmt)) <= 25 and \
+        not any(isinstance(x, (ast.Yield, ast.YieldFrom)) for x in ast.walk(hf.node)):
+      helpers[name] = hf.node
   for v, fi in sorted(migs, key=lambda x: x[0] or 0):
-    ops = jsonshape.analyse_function(fi.node, SOURCES, fi.qualname)
+    ops = jsonshape.analyse_function(fi.node, SOURCES, fi.qualname, helpers=helpers)
     seen = set()
     for op in ops:
       key = (short(op.node, 70), op.need)
@@ -215,7 +227,7 @@ def r2_shapes(run, w, migs):
              "this raise; possible kinds: %s" % ",".join(sorted(op.value.kinds)))
   run.extra["json_shape_operations_checked"] = total
   # safe_parse itself: json.loads fenced by except ValueError returning a dict
-  sp = w.fn("migrations.safe_parse")
+  sp = ifn(w, "migrations.safe_parse")
   trys = [s for s in sp.node.body if isinstance(s, ast.Try)]
   ok = len(trys) == 1 and any(dotted(c.func) == "json.loads" for c in calls_in(trys[0].body)) and \
       any(isinstance(h.type, ast.Name) and h.type.id in ("ValueError", "Exception")
